@@ -2,6 +2,7 @@
 // Decision table written from the property: without force the documented error class is thrown (C: matching code);
 // with force a warning/problem is emitted and a result is produced; a result without error, problem or warning is finite.
 #include "gen.hpp"
+#include <sstream>
 #include "MSSMNoFV/gm2_1loop_helpers.hpp"
 #include "gm2calc/gm2_1loop.hpp"
 #include "gm2calc/gm2_2loop.hpp"
@@ -311,6 +312,11 @@ static void thdm_case(vh::Rng& r, gen::CerrCapture& cap) {
       try {
          THDM* m = gauge ? new THDM(g, sm, cfg) : new THDM(b, sm, cfg);
          o.have_problem = m->get_problems().have_problem(); o.have_warning = m->get_problems().have_warning();
+         { // the report channels of the THDM agree: have_x() <=> get_x() non-empty <=> print_x() non-empty
+           std::ostringstream pp, pw; m->get_problems().print_problems(pp); m->get_problems().print_warnings(pw);
+           const bool okc = o.have_problem == !m->get_problems().get_problems().empty() && o.have_warning == !m->get_problems().get_warnings().empty() && o.have_problem == !pp.str().empty() && o.have_warning == !pw.str().empty();
+           out->cell("THDM|C++|report-channels-consistent", okc ? 0 : 1, nullptr);
+           if (!okc) { J w = gen::json(b); w.str("get_problems", m->get_problems().get_problems()).str("get_warnings", m->get_problems().get_warnings()).i("have_problem", o.have_problem).i("have_warning", o.have_warning); out->fail("C16:THDM:report-channels-inconsistent", "have_problem/have_warning, get_problems/get_warnings and print_problems/print_warnings disagree", w); } }
          o.amu = calculate_amu_1loop(*m) + calculate_amu_2loop(*m); o.computed = true; delete m;
       } catch (const std::exception& e) { o.cls = cls_of(e); o.msg = e.what(); }
       o.cerr_text = cap.take();
